@@ -57,6 +57,7 @@ def run_project(srcdir: Path, files: dict, conf: dict | None = None, *, builder:
             app = Sphinx(str(srcdir), str(srcdir), str(out / builder), str(out / "doctrees"), builder,
                          status=status, warning=warning, freshenv=True, parallel=parallel, keep_going=False)
             app.build()
+            res["build_warnings"] = parse_warnings(warning.getvalue())      # the build's own resolution pass only
             if resolve:
                 for docname in sorted(app.env.found_docs):
                     try:
